@@ -73,6 +73,7 @@ class World:
         self.notes = []
         self.log = []            # event log (for determinism digests)
         self.orders_seen = set()
+        self.remembered = {}     # m -> (manager, what var_levels returned, the caller's own copy)
         self.alloc_armed = False # a node limit is in force for the current instruction (F-alloc)
         self.copy_caches = {}    # (src, dst) -> memo dict passed to dd._copy.copy_bdd
         self.copy_cache_tt = {}  # (src, dst) -> {source node: function it denoted when memoized}
@@ -200,9 +201,18 @@ class World:
         return [s for s in self.slots if s.m == m]
 
     def pick(self, i, m=0):
+        """The handle an operand index stands for: a pure function of the index
+        and the state, total.  Half of the indices (bit 13) choose among the
+        third of the handles whose functions depend on most variables --
+        otherwise variables and constants, which are the bulk of any handle
+        table, would be nearly all an operation ever sees."""
         c = self.slots_of(m)
         if not c:
             return None
+        if (i >> 13) & 1 and len(c) > 2:
+            sup = self.tt.support
+            rich = sorted(range(len(c)), key=lambda j: (-len(sup(c[j].tt)), j))[:max(1, len(c) // 3)]
+            return c[rich[i % len(rich)]]
         return c[i % len(c)]
 
     def add_slot(self, m, ref, tt, client=0):
